@@ -13,6 +13,7 @@
 //!            | ["poll", cid] | ["cancel", cid]
 //!            | ["accept", lid, sid] | ["accept_bg", lid, sid] (a task really awaits accept) | ["drop_listener", lid]
 //!            | ["try_write"|"write", sid, [bytes]] | ["read"|"peek", sid, n] | ["shutdown", sid]
+//!            | ["write_bg", sid, [bytes]] (a task really awaits write_all)
 //!            | ["split", sid] | ["reunite", sid] | ["drop"|"drop_r"|"drop_w", sid]
 //!            | ["addrs", sid] | ["count"] | ["count_on", h]
 //! A successful connect `cid` registers the stream under the same id.
@@ -97,7 +98,9 @@ struct HostState {
     streams: HashMap<u64, StreamObj>,
     /// streams accepted by background accept tasks, not yet moved into `streams`
     inbox: Rc<RefCell<Vec<(u64, TcpStream)>>>,
-    /// completions of background accepts: [step, host, sid, result]
+    /// write halves handed back by background write tasks
+    winbox: Rc<RefCell<Vec<(u64, OwnedWriteHalf)>>>,
+    /// completions of background accepts / writes: [step, host, sid, result]
     bg_log: Rc<RefCell<Vec<Value>>>,
     step_no: Rc<RefCell<u64>>,
     host: usize,
@@ -123,6 +126,12 @@ fn exec(cmd: &Value, st: &mut HostState, ips: &[IpAddr], v6: bool, cx: &mut Cont
     let arrived: Vec<(u64, TcpStream)> = st.inbox.borrow_mut().drain(..).collect();
     for (sid, s) in arrived {
         st.streams.insert(sid, StreamObj::Whole(s));
+    }
+    let back: Vec<(u64, OwnedWriteHalf)> = st.winbox.borrow_mut().drain(..).collect();
+    for (sid, w) in back {
+        if let Some(StreamObj::Split(_, slot)) = st.streams.get_mut(&sid) {
+            *slot = Some(w);
+        }
     }
     let name = cmd[0].as_str().unwrap();
     let id = cmd.get(1).and_then(|x| x.as_u64()).unwrap_or(0);
@@ -210,6 +219,34 @@ fn exec(cmd: &Value, st: &mut HostState, ips: &[IpAddr], v6: bool, cx: &mut Cont
                 Poll::Ready(Err(e)) => err(&e),
                 Poll::Pending => json!("pending"),
             }
+        }
+        "write_bg" => {
+            // a task really awaits write_all on the (owned) write half: it parks on the flow-control
+            // waker when the peer's window is full
+            let data = bytes_of(&cmd[2]);
+            if let Some(StreamObj::Whole(_)) = st.streams.get(&id) {
+                if let Some(StreamObj::Whole(s)) = st.streams.remove(&id) {
+                    let (r, w) = s.into_split();
+                    st.streams.insert(id, StreamObj::Split(Some(r), Some(w)));
+                }
+            }
+            let Some(StreamObj::Split(_, slot)) = st.streams.get_mut(&id) else { return json!("invalid") };
+            let Some(mut w) = slot.take() else { return json!("invalid") };
+            let winbox = st.winbox.clone();
+            let log = st.bg_log.clone();
+            let step = st.step_no.clone();
+            let h = st.host;
+            tokio::task::spawn_local(async move {
+                use tokio::io::AsyncWriteExt;
+                let r = w.write_all(&data).await;
+                let k = *step.borrow();
+                match r {
+                    Ok(()) => log.borrow_mut().push(json!([k, h, id, ["ok", data.len()]])),
+                    Err(e) => log.borrow_mut().push(json!([k, h, id, err(&e)])),
+                }
+                winbox.borrow_mut().push((id, w));
+            });
+            json!("none")
         }
         "accept_bg" => {
             // a real parked accept: a task awaits listener.accept() and is woken by the listener's Notify
@@ -448,6 +485,7 @@ pub fn run_case(case: &Value) -> Value {
                     connects: HashMap::new(),
                     streams: HashMap::new(),
                     inbox: Rc::new(RefCell::new(Vec::new())),
+                    winbox: Rc::new(RefCell::new(Vec::new())),
                     bg_log: bg_log.clone(),
                     step_no: step_no.clone(),
                     host: h,
